@@ -25,7 +25,7 @@ def run(ctx):
     behs = ro.tagged("R")
     seen = set()
     for cfg, what in (("MC_RuntimeOps_sim.cfg", "chains of 4 operations"), ("MC_RuntimeOps_cells.cfg", "chains of 5 unary/method/cell operations")):
-        rs = tlc("lang/MC_RuntimeOps.tla", cfg=cfg, workers=8, coverage=False, tag="c26s", simulate=12 if quick else 400,
+        rs = tlc("lang/MC_RuntimeOps.tla", cfg=cfg, workers=8, coverage=False, tag="c26s", simulate=12 if quick else 60,
                  depth=8, seed=ctx.seed, timeout=2400)
         ctx.tlc_stats(rs, f"RuntimeOps.tla (simulation: {what})")
         if not rs.ok:
